@@ -273,11 +273,50 @@ func rdsParse(a *anypb.Any) string {
 
 // ---------------------------------------------------------------- CDS
 
+var ringSizes = []uint64{0, 1, 5, 1023, 1024, 1025, 4095, 4096, 4097, 8388608, 8388609}
+
+// ringCluster(i) is an otherwise valid EDS cluster with the legacy RING_HASH policy whose minimum / maximum ring size are
+// entry i/12 and i%12 of {unset} + ringSizes: the whole grid of unset / explicit boundary values (0, around the parser's
+// defaults 1024 and 4096, the 8M cap).
+func ringCluster(i int) *v3clusterpb.Cluster {
+	c := &v3clusterpb.Cluster{Name: "c"}
+	c.ClusterDiscoveryType = &v3clusterpb.Cluster_Type{Type: v3clusterpb.Cluster_EDS}
+	c.EdsClusterConfig = &v3clusterpb.Cluster_EdsClusterConfig{EdsConfig: &v3corepb.ConfigSource{ConfigSourceSpecifier: &v3corepb.ConfigSource_Ads{Ads: &v3corepb.AggregatedConfigSource{}}}}
+	c.LbPolicy = v3clusterpb.Cluster_RING_HASH
+	rh := &v3clusterpb.Cluster_RingHashLbConfig{}
+	n := len(ringSizes) + 1
+	if a := (i / n) % n; a > 0 {
+		rh.MinimumRingSize = wrapperspb.UInt64(ringSizes[a-1])
+	}
+	if b := i % n; b > 0 {
+		rh.MaximumRingSize = wrapperspb.UInt64(ringSizes[b-1])
+	}
+	c.LbConfig = &v3clusterpb.Cluster_RingHashLbConfig_{RingHashLbConfig: rh}
+	return c
+}
+
 func genCluster(r *rand.Rand) *v3clusterpb.Cluster {
 	c := &v3clusterpb.Cluster{Name: pick(r, "c", "c", "c", "c", "c", "xdstp://a/envoy.config.cluster.v3.Cluster/c")}
 	ads := &v3corepb.ConfigSource{ConfigSourceSpecifier: &v3corepb.ConfigSource_Ads{Ads: &v3corepb.AggregatedConfigSource{}}}
 	self := &v3corepb.ConfigSource{ConfigSourceSpecifier: &v3corepb.ConfigSource_Self{Self: &v3corepb.SelfConfigSource{}}}
 	path := &v3corepb.ConfigSource{ConfigSourceSpecifier: &v3corepb.ConfigSource_Path{Path: "/x"}}
+	if chance(r, 0.12) {
+		// the ring-size class on an otherwise valid EDS cluster: every combination of unset / explicit boundary values
+		// of the legacy RING_HASH minimum and maximum (0, below/at/above the parser's defaults 1024 and 4096, the 8M cap)
+		c.ClusterDiscoveryType = &v3clusterpb.Cluster_Type{Type: v3clusterpb.Cluster_EDS}
+		c.EdsClusterConfig = &v3clusterpb.Cluster_EdsClusterConfig{EdsConfig: ads}
+		c.LbPolicy = v3clusterpb.Cluster_RING_HASH
+		rh := &v3clusterpb.Cluster_RingHashLbConfig{}
+		sizes := []uint64{0, 1, 5, 1023, 1024, 1025, 4095, 4096, 4097, 8388608, 8388609}
+		if chance(r, 0.75) {
+			rh.MinimumRingSize = wrapperspb.UInt64(pick(r, sizes...))
+		}
+		if chance(r, 0.75) {
+			rh.MaximumRingSize = wrapperspb.UInt64(pick(r, sizes...))
+		}
+		c.LbConfig = &v3clusterpb.Cluster_RingHashLbConfig_{RingHashLbConfig: rh}
+		return c
+	}
 	switch r.Intn(30) / 3 {
 	case 0, 1, 2, 3, 4:
 		c.ClusterDiscoveryType = &v3clusterpb.Cluster_Type{Type: v3clusterpb.Cluster_EDS}
@@ -667,7 +706,11 @@ func xdsOtherOp(f []string) string {
 		case "rds":
 			m = genRouteConfig(r, size)
 		case "cds":
-			m = genCluster(r)
+			if size >= 100 {
+				m = ringCluster(size - 100) // directed: the whole ring-size grid, see ringCluster
+			} else {
+				m = genCluster(r)
+			}
 		case "lds":
 			m = genListener(r, size)
 		default:
